@@ -246,6 +246,25 @@ func runC02(w *core.W) {
 		src := ref.JoinLexemes(f.Lex, gen.Layout(r, f, r.Intn(3)))
 		run("prog", []byte(src), t.Canon(), "prog_cases")
 	}
+	// 5b. one line break placed right before a '.', '!.' or call '(' of a valid program:
+	// member access and calls must start on the line of their target
+	r = w.RNG("postfix-break")
+	for i, n := 0, w.Pick(20000, 300000); i < n; i++ {
+		f := ref.Flatten(ref.Parenthesize(cfg.Node(r, 2+r.Intn(5))))
+		var at []int
+		for j := range f.Lex {
+			if f.Postfix[j] {
+				at = append(at, j)
+			}
+		}
+		if len(at) == 0 {
+			continue
+		}
+		k := at[r.Intn(len(at))]
+		sep := gen.Layout(r, f, 1)
+		sep[k] = gen.BreakSeps[r.Intn(len(gen.BreakSeps))]
+		run("postfix-on-next-line", []byte(ref.JoinLexemes(f.Lex, sep)), "", "postfix_break_cases")
+	}
 	// 6. mutants of valid programs (near-miss inputs on the reject side)
 	r = w.RNG("prog-mut")
 	for i, n := 0, w.Pick(15000, 300000); i < n; i++ {
